@@ -171,10 +171,20 @@ def gen_scenario(rng: random.Random, feat: dict | None = None) -> dict:
             if any(l["rhs"] == tn for l in sec_["lines"]):
                 pts.update(rec_points(sec_["rec"], icp, fcp))
         return pts
+    n_secs_of = {}
+    for sec_ in sections:
+        for tn in {l["rhs"] for l in sec_["lines"]}:
+            n_secs_of[tn] = n_secs_of.get(tn, 0) + 1
     for sec_ in sections:
         keep = []
         for ln in sec_["lines"]:
             ok = True
+            if ln["lhs"] is not None and n_secs_of.get(ln["rhs"], 0) > 1 and any(
+                    a.get("off", 0) > 0 for a in atoms(ln["lhs"])):
+                # cylc learns a task's future-trigger offset lazily (when it first builds the prerequisites of an instance
+                # on that recurrence), so with the task on several recurrences the runahead adjustment is history
+                # dependent; the reference semantics assumes it is static: keep such tasks on one recurrence
+                ok = False
             if ln["lhs"] is not None:
                 for pnt in rec_points(sec_["rec"], icp, fcp):
                     for a in atoms(ln["lhs"]):
